@@ -122,7 +122,7 @@ package proxy
 //@   let CS = unbox(arg(@Unmarshal#2, 2), "*proxy.StateParameter")
 //@   sink [C06] both_sealed_by_this_proxy: SaveSession requires called(@ParseForm#1) && @ParseForm#1 == nil && called(@Unmarshal#1) && @Unmarshal#1 == nil && arg(@Unmarshal#1, 0) == p.cookieCipher && arg(@Unmarshal#1, 1) == state && called(@GetCSRF#1) && @GetCSRF#1.1 == nil && arg(@GetCSRF#1, 1) == req && called(@Unmarshal#2) && @Unmarshal#2 == nil && arg(@Unmarshal#2, 0) == p.cookieCipher && arg(@Unmarshal#2, 1) == csrf
 //@   sink [C06] different_ciphertexts_same_record: SaveSession requires state != csrf && at(@Unmarshal#2, ST.SessionID == CS.SessionID && ST.RedirectURI == CS.RedirectURI)
-//@   sink [C06] code_redeemed_and_user_allowed: SaveSession requires called(@redeemCode#1) && @redeemCode#1.1 == nil && arg(@redeemCode#1, 1) == req.Host && arg(@redeemCode#1, 2) == formGet(F, "code") && formGet(F, "error") == "" && called(@RunValidators#1) && arg(@RunValidators#1, 0) == p.Validators && arg(@RunValidators#1, 1) == @redeemCode#1.0 && len(@RunValidators#1) < len(p.Validators)
+//@   sink [C06 C11 C01] code_redeemed_and_user_allowed: SaveSession requires called(@redeemCode#1) && @redeemCode#1.1 == nil && arg(@redeemCode#1, 1) == req.Host && arg(@redeemCode#1, 2) == formGet(F, "code") && formGet(F, "error") == "" && called(@RunValidators#1) && arg(@RunValidators#1, 0) == p.Validators && arg(@RunValidators#1, 1) == @redeemCode#1.0 && len(@RunValidators#1) < len(p.Validators)
 //@   sink [C06 C13] session_bound_to_host: SaveSession requires $arg0 == rw && $arg2 == @redeemCode#1.0 && $arg2.AuthorizedUpstream == req.Host
 //@   ensures [C06] returns_to_recorded_url: rw.$sessionCookie == 1 ==> rw.$status == 302 && rw.$location == at(@Unmarshal#2, ST.RedirectURI) && called(@ClearCSRF#1)
 //@   ensures [C06] no_cookie_otherwise: !(called(@SaveSession#1) && @SaveSession#1 == nil) ==> rw.$sessionCookie == 0
@@ -446,3 +446,27 @@ package proxy
 //@   ensures [C14] a_template_variable_carries_the_whole_value_of_its_environment_variable: result != nil && forall i :: 0 <= i && i < len(environ) && hasPrefix(environ[i], "SSO_CONFIG_") && (forall m :: i < m && m < len(environ) && hasPrefix(environ[m], "SSO_CONFIG_") ==> envKey(environ[m]) != envKey(environ[i])) ==> (envKey(environ[i]) in result) && result[envKey(environ[i])] == envValue(environ[i])
 //@   loop 1
 //@     invariant forall j :: 0 <= j && j < $i && hasPrefix(environ[j], "SSO_CONFIG_") && (forall m :: j < m && m < $i && hasPrefix(environ[m], "SSO_CONFIG_") ==> envKey(environ[m]) != envKey(environ[j])) ==> (envKey(environ[j]) in env) && env[envKey(environ[j])] == envValue(environ[j])
+
+// ---- C13: the backend of a rewrite route is the match substituted into `to` -----------------------------------
+// (regexp.ReplaceAllString of the Host: every match of `from` in the Host replaced by the expanded template, the
+// rest of the Host kept), parsed with the template's scheme, and that very URL is what the director forwards to.
+//@ func (d *Director) RewriteDirectorFunc$1(req *http.Request)
+//@   modifies everything
+//@   sink [C13] backend_is_the_host_rewritten_by_the_routes_pattern: urlParse requires called(@ReplaceAllString#1) && arg(@ReplaceAllString#1, 0) == route.FromRegex && arg(@ReplaceAllString#1, 1) == req.Host && arg(@ReplaceAllString#1, 2) == route.ToTemplate.Opaque && $arg0 == route.ToTemplate.Scheme && $arg1 == @ReplaceAllString#1
+//@   sink [C13] forwarded_to_exactly_that_address: DirectorFunc requires called(@urlParse#1) && @urlParse#1.1 == nil && $arg1 == @urlParse#1.0
+//@   ensures [C13] an_unparsable_address_reaches_no_backend: called(@urlParse#1) && @urlParse#1.1 != nil ==> req.URL == nil && !called(@DirectorFunc#1)
+
+// ---- C14: template variables are substituted everywhere --------------------------------------------------------
+// Every variable is replaced by plain text substitution of "{{name}}" — whatever characters the name has — at
+// every occurrence (count -1), each on the output of the one before; nothing else rewrites the document.
+//@ func resolveTemplates(raw []byte, templateVars map[string]string) []byte
+//@   modifies nothing
+//@   sink [C14] every_occurrence_of_the_braced_name_gets_the_value: Replace requires $arg1 == "{{" + k + "}}" && (k in templateVars) && $arg2 == templateVars[k] && $arg3 == -1
+//@   loop 1
+//@     invariant true
+
+// ---- C18: cookies carry the configured attributes ---------------------------------------------------------------
+// The option the proxy's cookie store is built with: each attribute from the configuration field of that name.
+//@ func SetCookieStore$1$1(c *sessions.CookieStore) error
+//@   modifies c.CookieDomain, c.CookieHTTPOnly, c.CookieExpire, c.CookieSecure
+//@   ensures [C18] cookie_attributes_are_the_configured_ones: result == nil && c.CookieDomain == cc.Domain && c.CookieHTTPOnly == cc.HTTPOnly && c.CookieExpire == cc.Expire && c.CookieSecure == cc.Secure
